@@ -6,6 +6,8 @@ import mon_mint
 import mon_filetree
 import mon_genesis
 import mon_storage
+import mon_msgs
+import facts
 import os
 
 BASE_TRUST = [
@@ -60,7 +62,23 @@ def genesis_runs(tier, seed):
     return [{"profile": p, "args": [p, "-seed", str(seed * 100 + k * 7 + j), "-hist", "4", "-steps", "400", "-genesis"]} for k, p in enumerate(profs) for j in range(3)]
 
 
+def msgs_runs(tier, seed):
+    if tier == "quick":
+        return [{"profile": "msgs", "args": ["msgs", "-seed", str(seed * 10 + 1), "-hist", "3", "-steps", "150", "-signed"]},
+                {"profile": "collateral", "args": ["collateral", "-seed", str(seed * 10 + 2), "-hist", "2", "-steps", "250"]}]
+    return [{"profile": "msgs", "args": ["msgs", "-seed", str(seed * 100 + k), "-hist", "6", "-steps", "400", "-signed"]} for k in range(8)] + \
+           [{"profile": "collateral", "args": ["collateral", "-seed", str(seed * 100 + 50 + k), "-hist", "4", "-steps", "500"]} for k in range(4)]
+
+
 PROPS = {
+    "C11": {
+        "runs": msgs_runs, "replay_runs": replay_runs, "monitor": mon_msgs.c11, "facts": facts.gen_msg_facts,
+        "diff_relevant": lambda d: d["mod"] in ("msgtable", "oracle", "wasm") or
+            (d["mod"] == "storage" and (d["op"] in ("initProvider", "shutdownProvider", "setProviderIP", "setProviderKeybase", "setProviderTotalSpace", "addClaimer", "removeClaimer", "deleteFile") or "providers" in d["fields"])),
+        "trusted_base": BASE_TRUST + ["the message table is read from the running app's interface registry by reflection (every string field set to a distinct address) and rewritten to Canine/Generated/MsgFacts.lean on every run",
+                                      "signature verification itself is the SDK ante handler's: exercised with real signed transactions (creator key accepted, other key rejected), not modelled"],
+        "assumptions": ["frame theorems for inbox / block list / primary name / rns / filetree messages are proved in the respective module models (C08, C10, C18) and tied by their own correspondence runs"],
+    },
     "C19": {
         "runs": genesis_runs, "replay_runs": replay_runs, "monitor": mon_genesis.c19,
         "diff_relevant": lambda d: d["mod"] == "genesis",
